@@ -52,6 +52,16 @@ static std::map<int, IScripts> scr_body, scr_ifinal;           // by node id
 static void run_iscript(std::map<int, IScripts> &m, int id);
 static void check_final(int id);
 
+// decimal to uint64_t without wrap-around (vh::to_u64 wraps): 2^64 and above are rejected
+static bool to_u64s(const std::string &s, uint64_t &v) {
+    if (s.empty() || s.size() > 20) return false;
+    unsigned __int128 a = 0;
+    for (char c : s) { if (c < '0' || c > '9') return false; a = a * 10 + (unsigned)(c - '0'); }
+    if (a > (unsigned __int128)UINT64_MAX) return false;
+    v = (uint64_t)a; return true;
+}
+static const uint64_t RAW_MAX = 1ULL << 43;      // raw durations / clock steps in ms (steady_clock counts int64 nanoseconds)
+
 struct Parser {
     std::vector<std::string> toks; size_t pos = 0; int next_id = 0; bool bad = false;
     std::vector<Action*> made;      // every node built so far, by id (for cleanup on error)
@@ -59,25 +69,32 @@ struct Parser {
     std::vector<Action*> orphans;   // built but not (yet) owned by a parent
     std::map<int, std::vector<Action*>> kids;   // children of composite `id`
 
-    static bool split_tmo(const std::string &tok, std::string &base, int &tmo) {
-        tmo = -1;
+    // tmo: -1 none; @<k> (k <= 50): 100k + 2·id + 2 ms; @r<ms> (ms <= 2^43): exactly ms (width boundary families)
+    static bool split_tmo(const std::string &tok, std::string &base, int64_t &tmo, bool &raw) {
+        tmo = -1; raw = false;
         size_t p = tok.find('@');
         if (p == std::string::npos) { base = tok; return true; }
         if (tok.find('@', p + 1) != std::string::npos) return false;
-        uint64_t k; if (!vh::to_u64(tok.substr(p + 1), k) || k > 50) return false;
-        base = tok.substr(0, p); tmo = (int)k; return true;
+        std::string num = tok.substr(p + 1);
+        uint64_t k;
+        if (!num.empty() && num[0] == 'r') {
+            if (!to_u64s(num.substr(1), k) || k > RAW_MAX) return false;
+            raw = true;
+        } else if (!vh::to_u64(num, k) || k > 50) return false;
+        base = tok.substr(0, p); tmo = (int64_t)k; return true;
     }
+    static int64_t tmo_ms(int id, int64_t tmo, bool raw) { return raw ? tmo : 100 * tmo + 2 * id + 2; }
     static std::vector<std::string> colon(const std::string &s) {
         std::vector<std::string> r; size_t b = 0;
         for (;;) { size_t p = s.find(':', b); if (p == std::string::npos) { r.push_back(s.substr(b)); break; } r.push_back(s.substr(b, p - b)); b = p + 1; }
         return r;
     }
-    void reg(Action *a, int id, int tmo, DummyAction *d = nullptr) {
+    void reg(Action *a, int id, int64_t tmo, bool raw, DummyAction *d = nullptr) {
         made.push_back(a); dums.push_back(d);
-        if (tmo >= 0) a->setTimeout(std::chrono::milliseconds(100 * tmo + 2 * id + 2));
+        if (tmo >= 0) a->setTimeout(std::chrono::milliseconds(tmo_ms(id, tmo, raw)));
     }
 
-    Action *leaf(const std::string &base, int id, int tmo) {
+    Action *leaf(const std::string &base, int id, int64_t tmo, bool raw) {
         auto c = colon(base);
         if ((c[0] == "Fs" || c[0] == "Ff") && c.size() <= 2) {
             bool succ = c[0] == "Fs";
@@ -95,7 +112,7 @@ struct Parser {
                 FunctionAction::Func f = [id, succ] { ev("fn " + std::to_string(id)); run_iscript(scr_body, id); return succ; };
                 a = new FunctionAction(*loop, std::move(f));
             }
-            reg(a, id, tmo); return a;
+            reg(a, id, tmo, raw); return a;
         }
         if (base == "D") {
             auto d = new DummyAction(*loop);
@@ -104,12 +121,18 @@ struct Parser {
             d->setPauseCallback([id] { ev("dpause " + std::to_string(id)); });
             d->setResumeCallback([id] { ev("dresume " + std::to_string(id)); });
             d->setResetCallback([id] { ev("dreset " + std::to_string(id)); });
-            reg(d, id, tmo, d); return d;
+            reg(d, id, tmo, raw, d); return d;
+        }
+        if (c.size() == 1 && base.size() >= 3 && base[0] == 'Z' && base[1] == 'r') {
+            // Zr<ms>: SleepAction of exactly <ms> milliseconds (0 and the 2^31 / 2^32 boundaries)
+            uint64_t ms; if (!to_u64s(base.substr(2), ms) || ms > RAW_MAX) return nullptr;
+            auto a = new SleepAction(*loop, std::chrono::milliseconds((int64_t)ms));
+            reg(a, id, tmo, raw); return a;
         }
         if (c.size() == 1 && base.size() >= 2 && base[0] == 'Z') {
             uint64_t k; if (!vh::to_u64(base.substr(1), k) || k > 50) return nullptr;
             auto a = new SleepAction(*loop, std::chrono::milliseconds(100 * k + 2 * id + 1));
-            reg(a, id, tmo); return a;
+            reg(a, id, tmo, raw); return a;
         }
         return nullptr;
     }
@@ -124,17 +147,17 @@ struct Parser {
         if (depth > 6 || pos >= toks.size()) return nullptr;
         std::string tok = toks[pos++];
         if (tok == ")") return nullptr;
-        std::string base; int tmo;
+        std::string base; int64_t tmo; bool raw;
         if (tok != "(") {
-            if (!split_tmo(tok, base, tmo)) return nullptr;
+            if (!split_tmo(tok, base, tmo, raw)) return nullptr;
             int id = next_id++;
-            Action *a = leaf(base, id, tmo);
+            Action *a = leaf(base, id, tmo, raw);
             if (a) orphans.push_back(a); else --next_id;
             return a;
         }
         if (pos >= toks.size()) return nullptr;
         std::string hd = toks[pos++];
-        if (!split_tmo(hd, base, tmo)) return nullptr;
+        if (!split_tmo(hd, base, tmo, raw)) return nullptr;
         auto c = colon(base);
         int id = next_id++;
         // validate the head first (no object yet), then parse the children, then check the arity
@@ -146,7 +169,7 @@ struct Parser {
         else if (c[0] == "sw" && c.size() == 2 && (c[1] == "d" || c[1] == "n")) { kind = 4; a1 = c[1] == "d"; }
         else if (c[0] == "loop" && c.size() == 2 && (c[1] == "fe" || c[1] == "uf" || c[1] == "us")) { kind = 5; m = c[1] == "fe" ? 0 : c[1] == "uf" ? 1 : 2; }
         else if (c[0] == "lif" && c.size() == 2 && (c[1] == "t" || c[1] == "f")) { kind = 6; a1 = c[1] == "t"; }
-        else if (c[0] == "rep" && c.size() == 3 && vh::to_u64(c[1], n) && n <= 1000 && (c[2] == "nb" || c[2] == "bf" || c[2] == "bs")) { kind = 7; m = c[2] == "nb" ? 0 : c[2] == "bf" ? 1 : 2; }
+        else if (c[0] == "rep" && c.size() == 3 && to_u64s(c[1], n) && (c[2] == "nb" || c[2] == "bf" || c[2] == "bs")) { kind = 7; m = c[2] == "nb" ? 0 : c[2] == "bf" ? 1 : 2; }
         else if (c[0] == "wr" && c.size() == 2 && (c[1] == "n" || c[1] == "i" || c[1] == "s" || c[1] == "f")) { kind = 8; m = c[1] == "n" ? 0 : c[1] == "i" ? 1 : c[1] == "s" ? 2 : 3; }
         else if (base == "cmp") kind = 9;
         if (kind < 0) return nullptr;
@@ -197,7 +220,7 @@ struct Parser {
         a->setFinalCallback([id] { ev("final " + std::to_string(id)); check_final(id); run_iscript(scr_ifinal, id); });
         made[slot] = a;
         kids[id] = ch;
-        if (tmo >= 0) a->setTimeout(std::chrono::milliseconds(100 * tmo + 2 * id + 2));
+        if (tmo >= 0) a->setTimeout(std::chrono::milliseconds(tmo_ms(id, tmo, raw)));
         return a;
     }
 };
@@ -360,7 +383,12 @@ int main() {
         auto handle = [&](const std::string &line) -> bool {
         auto w = vh::words(line);
         if (w.empty()) return true;
-        if (w[0] == "case") { drop_exec(); drop_tree(); free_mode = false; std::cout << line << "\n"; return true; }
+        if (w[0] == "case") {
+            drop_exec(); drop_tree(); free_mode = false;
+            // every case starts at the same instant (nothing is armed now): the raw clock steps of the width families
+            // must not add up over a batch (time points are int64 nanoseconds)
+            vt::enable(1000, 1700000000000LL);
+            std::cout << line << "\n"; return true; }
         // ---- executor ops (only in a case without a tree)
         if (w[0][0] == 'x') {
             uint64_t n, pr;
@@ -468,6 +496,20 @@ int main() {
             pending_rets = "-"; pending = true;
         } else if (w[0] == "adv" && w.size() == 2 && vh::to_u64(w[1], k) && k <= 100) {
             vt::advance_ms((int64_t)(100 * k)); pending_rets = "-"; pending = true;
+        } else if (w[0] == "advr" && w.size() == 2 && to_u64s(w[1], k) && k <= RAW_MAX) {
+            vt::advance_mono_ms((int64_t)k); pending_rets = "-"; pending = true;
+        } else if (w[0] == "advdo" && w.size() >= 3 && to_u64s(w[1], k) && k <= RAW_MAX) {
+            // the clock moves and the control calls are made in the SAME fd callback: timers that are due by now have not
+            // fired yet (a late loop pass) - pause() then sees finish_time_ < now
+            std::vector<Call> cs;
+            for (size_t i = 2; i < w.size(); ++i) { Call c; if (!parse_call(w[i], c)) { std::cout << "bad-op\n"; return false; } cs.push_back(c); }
+            vt::advance_mono_ms((int64_t)k);
+            pending_rets.clear();
+            for (auto &c : cs) pending_rets += do_call(c) ? "1" : "0";
+            pending = true;
+        } else if (w[0] == "passes" && w.size() == 2 && vh::to_u64(w[1], k) && k >= 1 && k <= 200000) {
+            // k loop passes (one snapshot at the end): long synchronous loops
+            pending_rets = "-"; pending = true; settle_wait = (int)k - 1;
         } else if (w[0] == "pass" && w.size() == 1) {
             pending_rets = "-"; pending = true;
         } else { std::cout << "bad-op\n"; return false; }
